@@ -4,7 +4,7 @@ Oracle = independent evaluation of the database *text* (vp/dbparse.py, vp/formul
 equation as written in the database with a Python log K(T), LK_SPECIES/LK_PHASE read-outs, element / charge / ionic-strength /
 alkalinity sums over the species distribution, input totals after unit conversion, and the mutual consistency of the read-outs.
 """
-import math, re, hashlib
+import math, re, hashlib, os
 from hypothesis import strategies as st
 from .. import lib, chemgen as cg, dbparse, formula as F
 from ..core import Violation, Discard
@@ -34,7 +34,7 @@ LEVEL_TEXT = ("Exploration: thousands of generated solutions per run on 10 datab
               "reaction steps are sampled.")
 FLOORS = {"quick": 300, "thorough": 3000}
 SHARDS = {"quick": 8, "thorough": 16}
-BUDGET = {"quick": 260, "thorough": 2400, "replay": 1}
+BUDGET = {"quick": 800, "thorough": 2400, "replay": 1}
 
 # database -> sampling weight
 DATABASES = [("phreeqc.dat", 5), ("wateq4f.dat", 3), ("minteq.v4.dat", 2), ("minteq.dat", 2), ("Amm.dat", 2), ("llnl.dat", 2),
@@ -43,6 +43,9 @@ SWEEP_DATABASES = [d for d, _ in DATABASES] + ["Kinec_v3.dat"]
 MAX_SPECIES = 400
 MAX_PHASES = 40
 ABSENT = -99.99
+# sensitivity experiments only: VERIF_C01_OFF=lk_species,lk_phase switches the named oracle clauses off, to see whether the
+# remaining clauses (e.g. mass action alone) still detect a seeded mutant.  Never set in a normal run (recorded in the evidence).
+_OFF = {x for x in os.environ.get("VERIF_C01_OFF", "").split(",") if x}
 TOL_MA = 1e-9
 TOL_REL = 1e-7
 
@@ -76,6 +79,20 @@ class DbInfo(object):
         self.o2 = db.master["O(0)"].species if "O(0)" in db.master else None
         self.h2 = db.master["H(0)"].species if "H(0)" in db.master else None
         self.carriers = {x for x in (self.eminus, self.o2, self.h2) if x}
+        # species that are NOT master species but are defined (directly or through other such species) by an equation with an
+        # electron carrier, e.g. minteq.dat "SeO4-2 + 2e- + 3H+ = HSeO3- + H2O" and everything built from HSeO3-: in a
+        # redox-decoupled initial solution their activities carry the pe of one particular couple, like an electron carrier
+        masters = set(db.master_of_species)
+        self.redox_derived = set()
+        grown = True
+        while grown:
+            grown = False
+            for s in db.species.values():
+                if s.name in masters or s.name in self.redox_derived:
+                    continue
+                if any(n != s.name and (n in self.carriers or n in self.redox_derived) for _, n in s.reaction):
+                    self.redox_derived.add(s.name)
+                    grown = True
         skip = {"H", "O", "E", "Alkalinity"}
         # elements that can be entered as totals; an element needs its master species defined as an aqueous species
         self.totals = [m.element for m in db.master.values()
@@ -95,26 +112,80 @@ class DbInfo(object):
         for p in db.phases.values():
             if p.formula and all(n in db.species for _, n in p.reaction):
                 self.usable_phases[p.name] = p
-        self.alk = self._alkalinities()
-        self.by_element = {}
+        # alkalinity per mole of species.  Where one species is master species of a primary AND a secondary entry that list
+        # different alkalinities (minteq.dat: "Fe Fe+3 0" / "Fe(+3) Fe+3 -2") the database text has two readings; the format
+        # description does not say which line counts, so the oracle accepts the sum under either reading.
+        self.alk = self._alkalinities("secondary")
+        alt = self._alkalinities("primary")
+        self.alk_alt = alt if alt != self.alk else None
+        # ISOTOPES block: the engine re-labels part of total H / O of an INITIAL solution as minor isotopes after the speciation
+        # (only when a minor isotope of H or O - D, T, [18O] in iso.dat - is among the entered constituents)
+        self.ho_isotopes = {dbparse.base_element(i) for e, L in db.isotopes.items() if dbparse.base_element(e) in ("H", "O") for i in L}
+        # stoichiometry: -mole_balance formula if given, else the formula in the species name.  For a -no_check species whose
+        # equation is not balanced and that has no -mole_balance (10 polysulfide species of minteq.v4.dat) the text has two
+        # readings ("stoichiometry from the chemical equation" vs. the name); the oracle accepts the sum under either.
+        self.alt_elements = self._alt_stoichiometry()
+        self.coefs = {}
+        self.coefs_alt = {}
         for s in db.species.values():
-            for e in s.elements:
-                self.by_element.setdefault(e, []).append(s.name)
+            for e, c in s.elements.items():
+                self.coefs.setdefault(e, []).append((s.name, c))
+            for e, c in self.alt_elements.get(s.name, s.elements).items():
+                self.coefs_alt.setdefault(e, []).append((s.name, c))
+        self.by_element = {e: [n for n, _ in L] for e, L in self.coefs.items()}
 
-    def _alkalinities(self):
+    def _alt_stoichiometry(self):
+        db = self.db
+        alt = {}
+        for _ in range(6):
+            changed = False
+            for s in db.species.values():
+                if s.mole_balance is not None or s.is_identity:
+                    continue
+                cself = sum(c for c, n in s.reaction if n == s.name)
+                if cself == 0:
+                    continue
+                acc = {}
+                ok = True
+                for c, n in s.reaction:
+                    if n == s.name:
+                        continue
+                    if n in alt:
+                        els = alt[n]
+                    elif n in db.species:
+                        els = db.species[n].elements
+                    else:
+                        try:
+                            els = F.elements(n)
+                        except F.FormulaError:
+                            ok = False
+                            break
+                    F.add(acc, els, -c / cself)
+                if not ok:
+                    continue
+                acc = {e: v for e, v in acc.items() if e != "e" and abs(v) > 1e-9}
+                name_els = {e: v for e, v in s.elements.items() if e != "e" and abs(v) > 1e-9}
+                same = set(acc) == set(name_els) and all(abs(acc[e] - name_els[e]) < 1e-9 for e in acc)
+                if not same and alt.get(s.name) != acc:
+                    alt[s.name] = acc
+                    changed = True
+            if not changed:
+                break
+        return alt
+
+    def _alkalinities(self, prefer):
         """alkalinity per mole of each species: master species as listed, others through the reactions as written"""
         db = self.db
         alk = {}
         for sp, ms in db.master_of_species.items():
-            # a species that is master of several entries: the entries agree in the shipped files except the
-            # 'Alkalinity' pseudo element, which is not a mole-balance entry
-            vals = [m.alk for m in ms if m.element != "Alkalinity"]
-            if vals:
-                alk[sp] = vals[-1] if len(set(vals)) > 1 else vals[0]
-                # primary entry wins where the listed values differ
-                for m in ms:
-                    if m.primary and m.element != "Alkalinity":
-                        alk[sp] = m.alk
+            # the 'Alkalinity' pseudo element is not a mole-balance entry
+            ms = [m for m in ms if m.element != "Alkalinity"]
+            if not ms:
+                continue
+            alk[sp] = ms[-1].alk
+            pick = [m for m in ms if m.primary == (prefer == "primary")]
+            if pick:
+                alk[sp] = pick[-1].alk
         state = {}
 
         def get(name, depth=0):
@@ -219,6 +290,15 @@ def _r(x, d=5):
     return float("%.*g" % (d, x))
 
 
+def temperature_st(inf, with_25=True):
+    """0..100 C; LLNL-type databases stop with an error outside their LLNL_AQUEOUS_MODEL_PARAMETERS grid (trap iii)"""
+    lo, hi = 0.0, 100.0
+    if inf.db.llnl and inf.db.llnl["temperatures"]:
+        lo, hi = max(lo, min(inf.db.llnl["temperatures"])), min(hi, max(inf.db.llnl["temperatures"]))
+    t = cg.uni(lo, hi, 3).map(lambda x: min(max(x, lo), hi))
+    return st.one_of(st.just(25.0), t, t) if with_25 else t
+
+
 @st.composite
 def solution_st(draw, inf, number, elements=None, max_el=8):
     db = inf.db
@@ -230,7 +310,7 @@ def solution_st(draw, inf, number, elements=None, max_el=8):
     # keep the number of punched species bounded (construction, not rejection)
     while len(els) > 1 and len(inf.species_for(els)) > MAX_SPECIES:
         els = els[:-1]
-    temp = draw(st.one_of(st.just(25.0), cg.uni(0.0, 100.0, 3), cg.uni(0.0, 100.0, 3)))
+    temp = draw(temperature_st(inf))
     pH = draw(cg.uni(2.0, 12.0, 3))
     pe = _r(draw(cg.uni(1.5, 15.5, 3)) - pH, 4)
     units = draw(st.one_of(st.just("mol/kgw"), st.sampled_from(UNITS)))
@@ -292,7 +372,7 @@ def solution_st(draw, inf, number, elements=None, max_el=8):
         labs = [c["el"] for c in sol["comps"]]
         for b in sorted({db.master[x].base for x in labs if x in inf.valence}):
             vs = [x for x in labs if x in inf.valence and db.master[x].base == b]
-            if len(vs) == 2 and draw(st.integers(0, 2)) == 0:
+            if len(vs) == 2 and draw(st.booleans()):
                 sol["redox"] = "%s/%s" % (vs[0], vs[1])
                 break
     # --- adjustments
@@ -310,7 +390,7 @@ def solution_st(draw, inf, number, elements=None, max_el=8):
         imb = sum(inf.master_charge.get(c["el"], 0.0) * m for c, m in zip(sol["comps"], mol))
         if abs(imb) < 1e-3 and not any(inf.master_charge.get(c["el"], 0.0) == 0 and m > 1e-3 for c, m in zip(sol["comps"], mol)):
             sol["pH_opt"] = "charge"
-    elif k == 3 and len(els) >= 2:
+    elif k in (3, 4) and len(els) >= 2 and not any(c["el"] in inf.valence for c in sol["comps"]):
         # phase-adjusted element: a phase made of the chosen elements that contains it
         ph = inf.phases_for(els)
         cands = []
@@ -372,7 +452,7 @@ def case_st(draw):
             case["react"].append({"kind": "eqphases", "phases": [[p, draw(st.sampled_from([0.0, 0.0, -1.0, -2.5, 0.5])),
                                                                   draw(st.sampled_from([0.0, 1e-5, 1e-3, 10.0]))] for p in chosen]})
         else:
-            case["react"].append({"kind": "temp", "temp": draw(cg.uni(0.0, 100.0, 3))})
+            case["react"].append({"kind": "temp", "temp": draw(temperature_st(inf, False))})
     return case
 
 
@@ -512,7 +592,7 @@ def decoupling(inf, sol):
 def redox_skip(inf, terms, glob, D):
     """True if the as-written equation cannot be expected to hold in a redox-decoupled initial solution"""
     names = [n for _, n in terms]
-    has_carrier = any(n in inf.carriers for n in names)
+    has_carrier = any(n in inf.carriers or n in inf.redox_derived for n in names)
     if not has_carrier:
         return False
     if glob:
@@ -535,7 +615,13 @@ def check_case(case, ctx):
     inf = info(case["db"])
     db = inf.db
     text, items, meta = build_input(inf, case)
-    I = lib.fresh(case["db"])
+    try:
+        I = lib.fresh(case["db"])
+    except RuntimeError as e:
+        # a database the tree cannot load: no calculation completes -> outside the property's domain (never on the unchanged tree)
+        if "LoadDatabase" not in str(e):
+            raise
+        raise Discard("database_load_error:" + case["db"])
     try:
         rc = I.run_string(text)
         if rc != 0 or I.errors().strip():
@@ -546,14 +632,15 @@ def check_case(case, ctx):
         I.close()
     nsol = len(case["sols"])
     if T.rows < 1 + nsol:
-        raise Violation("rows", "expected at least %d data rows, table has %d" % (nsol, T.rows - 1))
+        # not a statement of the property: a harness expectation (one row per initial solution)
+        raise RuntimeError("expected at least %d data rows, table has %d" % (nsol, T.rows - 1))
     head = T.cells[0]
     col = {}
     for j, h in enumerate(head):
         col.setdefault(h, j)
     ucol = [col.get("u%d" % i) for i in range(len(items))]
     if any(u is None for u in ucol):
-        raise Violation("columns", "USER_PUNCH column missing in the table")
+        raise RuntimeError("USER_PUNCH column missing in the table")
     stats = {"eq": 0, "redox_skipped": 0, "absent": 0, "bal": 0, "phases": 0, "worst": 0.0}
     classes = set()
     for r in range(1, T.rows):
@@ -564,7 +651,7 @@ def check_case(case, ctx):
         state = row[col["state"]] if "state" in col else None
         initial = r <= nsol
         if initial and state != "i_soln" or (not initial and state != "react"):
-            raise Violation("rows", "row %d has state %r" % (r, state))
+            raise RuntimeError("row %d has state %r" % (r, state))
         sol = case["sols"][r - 1] if initial else None
         check_row(inf, case, sol, v, row, col, meta, stats, "row %d (%s)" % (r, state))
     nel = len(meta["elements"])
@@ -588,6 +675,14 @@ def check_case(case, ctx):
     classes = ["db=" + case["db"], "elements=%d" % min(nel, 9)] + ["opt=" + o for o in opts]
     if stats["redox_skipped"]:
         classes.append("redox_equations_skipped")
+    if stats.get("isotope_HO_excluded"):
+        classes.append("excluded:isotope_layer_H_O_totals_of_initial_solution")
+    if _OFF:
+        classes.append("SENSITIVITY-RUN:clauses_off=" + "+".join(sorted(_OFF)))
+    if stats.get("two_readings"):
+        classes.append("database_text_with_two_readings(either_accepted)")
+    if stats.get("alk_unknown"):
+        classes.append("alkalinity_factor_unknown(sum_skipped)")
     ctx.extra["mass_action_equations"] = ctx.extra.get("mass_action_equations", 0) + stats["eq"]
     ctx.extra["redox_equations_skipped"] = ctx.extra.get("redox_equations_skipped", 0) + stats["redox_skipped"]
     ctx.extra["balance_sums"] = ctx.extra.get("balance_sums", 0) + stats["bal"]
@@ -600,34 +695,43 @@ def check_case(case, ctx):
     return {"nontrivial": nt, "classes": classes}
 
 
+def _reported(col, row, names):
+    """values of the built-in selected-output columns whose heading is one of `names` (with or without unit suffix)"""
+    out = []
+    for n in names:
+        for suf in ("", "(mol/kgw)", "(eq/kgw)", "(eq)", "(C)"):
+            j = col.get(n + suf)
+            if j is not None and isinstance(row[j], (int, float)):
+                out.append(("column %s%s" % (n, suf), float(row[j])))
+                break
+    return out
+
+
 def check_row(inf, case, sol, v, row, col, meta, stats, where):
+    """the oracle on one selected-output row (= one solution calculation); sol = the SOLUTION dict for initial solutions"""
     db = inf.db
-    TK, TC = v["TK"], v["TC"]
+    TK = v["TK"]
     if not (isinstance(TK, float) and 272.0 < TK < 380.0):
-        raise Violation("readout", "%s: TK = %r" % (where, TK))
-    if not close(TK, TC + 273.15, 1e-12):
-        raise Violation("readout", "%s: TK %r != TC %r + 273.15" % (where, TK, TC))
-    if sol is not None and not close(TC, sol["temp"], 1e-12, abs_=1e-12):
-        raise Violation("readout", "%s: TC %r but the solution was defined at %r" % (where, TC, sol["temp"]))
+        raise RuntimeError("%s: TK = %r" % (where, TK))          # harness expectation, not a property statement
     glob, D = decoupling(inf, sol) if sol is not None else (False, set())
     la = {}
     for s in meta["species"]:
         x = v["LA:" + s]
         if not isinstance(x, (int, float)) or x != x:
-            raise Violation("readout", "%s: LA(%s) = %r" % (where, s, x))
+            raise RuntimeError("%s: LA(%s) = %r" % (where, s, x))
         la[s] = float(x)
     la[inf.eminus] = float(v["LAE"])
     la[inf.water] = float(v["LAW"])
     present = {s for s in meta["species"] if not is_absent(la[s])}
     seen = stats.setdefault("seen", set())
-    # ---- (1) mass action as written, (2) LK_SPECIES
+    # ---- (1) mass action as written with the Python log K(T); (2) LK_SPECIES read-out = Python log K(T)
     for s in meta["species"]:
         sp = inf.usable.get(s)
         if sp is None:
             continue
         lk_py = sp.logk(TK, db)
         lk_en = v["LK_SPECIES:" + s]
-        if not close(lk_py, lk_en, 1e-13, abs_=TOL_MA):
+        if "lk_species" not in _OFF and not close(lk_py, lk_en, 1e-13, abs_=TOL_MA):
             raise Violation("lk_species", "%s: LK_SPECIES(%s) = %r, database text gives %r at %r K (line %s of %s)"
                             % (where, s, lk_en, lk_py, TK, sp.line, case["db"]))
         if sp.is_identity:
@@ -654,7 +758,7 @@ def check_row(inf, case, sol, v, row, col, meta, stats, where):
             raise Violation("mass_action", "%s: %s (line %s of %s): sum(nu*LA) = %r, log K(%.6g K) = %r, residual %.3e; "
                             "terms %r" % (where, s, sp.line, case["db"], tot, TK, lk_py, res,
                                           [(c, n, la[n]) for c, n in terms]))
-    # ---- (4) read-outs of each species
+    # ---- (4) read-outs of each species: log a = log m + log gamma, MOL = 10^LM, built-in columns = BASIC read-outs
     kgw = v["KGW"]
     mol = {}
     for s in meta["species"]:
@@ -662,7 +766,7 @@ def check_row(inf, case, sol, v, row, col, meta, stats, where):
         lm, lg = v["LM:" + s], v["LG:" + s]
         mol[s] = float(m)
         if s not in present:
-            # read-out convention for species outside the model: LA -99.99, MOL 1e-99 (treated as zero)
+            # documented read-out convention for species outside the model: LA -99.99, MOL 1e-99 (= zero)
             if m > 1e-90:
                 raise Violation("readout", "%s: %s is reported absent (LA -99.99) but MOL = %r" % (where, s, m))
             mol[s] = 0.0
@@ -672,97 +776,85 @@ def check_row(inf, case, sol, v, row, col, meta, stats, where):
         if not close(la[s], lm + lg, 0.0, abs_=1e-9):
             raise Violation("la_lm_lg", "%s: LA(%s) = %r but LM + LG = %r + %r" % (where, s, la[s], lm, lg))
         if -300 < lm < 300:
-            # molalities below 1e-40 are reported as zero (the engine's documented underflow guard)
             if not close(m, 10.0 ** lm, TOL_REL, abs_=1e-38):
                 raise Violation("mol_lm", "%s: MOL(%s) = %r but 10^LM = %r" % (where, s, m, 10.0 ** lm))
-    if inf.hplus in la and "pH" in col:
-        if not close(row[col["pH"]], -la[inf.hplus], 0.0, abs_=1e-9):
-            raise Violation("pH", "%s: pH column %r, -LA(%s) = %r" % (where, row[col["pH"]], inf.hplus, -la[inf.hplus]))
-    if "pe" in col and not close(row[col["pe"]], -la[inf.eminus], 0.0, abs_=1e-9):
-        raise Violation("pe", "%s: pe column %r, -LA(e-) = %r" % (where, row[col["pe"]], -la[inf.eminus]))
-    if sol is not None and not sol.get("pH_opt"):
-        if not close(-la[inf.hplus], sol["pH"], 0.0, abs_=1e-9):
-            raise Violation("pH", "%s: pH entered %r, -LA(H+) = %r" % (where, sol["pH"], -la[inf.hplus]))
-    if sol is not None and not close(-la[inf.eminus], sol["pe"], 0.0, abs_=1e-9):
-        raise Violation("pe", "%s: pe entered %r, -LA(e-) = %r" % (where, sol["pe"], -la[inf.eminus]))
-    # ---- (3) balances
-    complete = all(s in mol for s in meta["species"])
+    for s in meta["sub_s"]:
+        for lab, x in _reported(col, row, ["m_" + s]):
+            if not close(x, mol[s], TOL_REL, abs_=1e-38):
+                raise Violation("builtin_vs_basic", "%s: -molalities %s = %r, MOL = %r" % (where, s, x, mol[s]))
+        for lab, x in _reported(col, row, ["la_" + s]):
+            if s in present and not close(x, la[s], 0.0, abs_=1e-9):
+                raise Violation("builtin_vs_basic", "%s: -activities %s = %r, LA = %r" % (where, s, x, la[s]))
+    if inf.hplus in la:
+        for lab, x in _reported(col, row, ["pH"]):
+            if not close(x, -la[inf.hplus], 0.0, abs_=1e-9):
+                raise Violation("pH", "%s: pH column %r, -LA(%s) = %r" % (where, x, inf.hplus, -la[inf.hplus]))
+    # ---- (3) balances: sums over the species distribution = every reported value (BASIC read-out and built-in column)
+    iso_skip = (sol is not None and not case.get("assert_isotope_HO")
+                and any(db.master[c["el"]].base in inf.ho_isotopes for c in sol["comps"]))
     for e in ["H", "O"] + meta["elements"]:
-        tot = v["TOT:" + e]
-        ssum = 0.0
-        sabs = 0.0
-        for s in inf.by_element.get(e, []):
-            if s in mol:
-                c = db.species[s].elements[e]
-                ssum += c * mol[s]
-                sabs += abs(c * mol[s])
-        if not close(ssum, tot, TOL_REL, floor=1e-30, abs_=1e-16 * sabs):
-            raise Violation("element_total", "%s: sum over species of %s = %r, TOT(\"%s\") = %r" % (where, e, ssum, e, tot))
+        if e in ("H", "O") and iso_skip:
+            stats["isotope_HO_excluded"] = stats.get("isotope_HO_excluded", 0) + 1
+            continue
+        sums = []
+        for table in (inf.coefs, inf.coefs_alt) if inf.alt_elements else (inf.coefs,):
+            ssum = sabs = 0.0
+            for s, c in table.get(e, []):
+                if s in mol:
+                    ssum += c * mol[s]
+                    sabs += abs(c * mol[s])
+            sums.append((ssum, sabs))
+        rep = [('TOT("%s")' % e, v["TOT:" + e])]
+        if e not in ("H", "O"):
+            rep += _reported(col, row, [e])
+        for lab, tot in rep:
+            if not any(close(ssum, tot, TOL_REL, floor=1e-30, abs_=1e-16 * sabs) for ssum, sabs in sums):
+                raise Violation("element_total", "%s: sum over species of %s = %r, %s = %r"
+                                % (where, e, sums[0][0] if len(sums) == 1 else [x[0] for x in sums], lab, tot))
+        if len(sums) > 1 and not close(sums[0][0], sums[1][0], TOL_REL, floor=1e-30):
+            stats["two_readings"] = stats.get("two_readings", 0) + 1
         stats["bal"] += 1
-        j = col.get(e + "(mol/kgw)", col.get(e))
-        if j is not None and e not in ("H", "O") and row[j] is not None:
-            if not close(row[j], tot, 1e-12, abs_=1e-300):
-                raise Violation("builtin_vs_basic", "%s: -totals %s = %r, TOT = %r" % (where, e, row[j], tot))
     zsum = sum(db.species[s].charge * mol[s] for s in meta["species"])
     zabs = sum(abs(db.species[s].charge * mol[s]) for s in meta["species"])
-    if not close(zsum * kgw, v["CB"], 0.0, abs_=TOL_REL * zabs * kgw + 1e-15):
-        raise Violation("charge_balance", "%s: kgw*sum(z*MOL) = %r, CHARGE_BALANCE = %r (sum|z m| = %r)" % (where, zsum * kgw, v["CB"], zabs * kgw))
+    for lab, cb in [("CHARGE_BALANCE", v["CB"])] + _reported(col, row, ["charge"]):
+        if not close(zsum * kgw, cb, 0.0, abs_=TOL_REL * zabs * kgw + 1e-15):
+            raise Violation("charge_balance", "%s: kgw*sum(z*MOL) = %r, %s = %r (sum|z m| = %r)" % (where, zsum * kgw, lab, cb, zabs * kgw))
     mu = 0.5 * sum(db.species[s].charge ** 2 * mol[s] for s in meta["species"])
-    if not close(mu, v["MU"], TOL_REL, abs_=1e-15):
-        raise Violation("ionic_strength", "%s: 0.5*sum(z^2*MOL) = %r, MU = %r" % (where, mu, v["MU"]))
-    asum = aabs = 0.0
-    alk_ok = True
-    for s in meta["species"]:
-        if mol[s] == 0:
-            continue
-        a = inf.alk.get(s)
-        if a is None:
-            alk_ok = False
-            break
-        asum += a * mol[s]
-        aabs += abs(a * mol[s])
-    if alk_ok:
-        if not close(asum, v["ALK"], 0.0, abs_=TOL_REL * aabs + 1e-15):
-            raise Violation("alkalinity", "%s: sum(alk_s*MOL) = %r, ALK = %r (sum|alk m| = %r)" % (where, asum, v["ALK"], aabs))
-        stats["bal"] += 1
+    for lab, x in [("MU", v["MU"])] + _reported(col, row, ["mu"]):
+        if not close(mu, x, TOL_REL, abs_=1e-15):
+            raise Violation("ionic_strength", "%s: 0.5*sum(z^2*MOL) = %r, %s = %r" % (where, mu, lab, x))
     stats["bal"] += 2
-    for name, key in (("mu", "MU"), ("Alk", "ALK"), ("charge", "CB"), ("mass_H2O", "KGW"), ("temp", "TC")):
-        j = col.get(name, col.get(name + "(mol/kgw)", col.get(name + "(eq/kgw)", col.get(name + "(eq)", col.get(name + "(C)")))))
-        if j is not None and row[j] is not None:
-            if not close(row[j], v[key], 1e-12, abs_=1e-300):
-                raise Violation("builtin_vs_basic", "%s: built-in column %s = %r, BASIC %s = %r" % (where, name, row[j], key, v[key]))
-    for s in meta["sub_s"]:
-        j = col.get("m_%s(mol/kgw)" % s, col.get("m_" + s))
-        if j is not None and row[j] is not None and not close(row[j], mol[s], 1e-12, abs_=1e-300):
-            raise Violation("builtin_vs_basic", "%s: -molalities %s = %r, MOL = %r" % (where, s, row[j], mol[s]))
-        j = col.get("la_" + s)
-        if j is not None and row[j] is not None and s in present and not close(row[j], la[s], 0.0, abs_=1e-12):
-            raise Violation("builtin_vs_basic", "%s: -activities %s = %r, LA = %r" % (where, s, row[j], la[s]))
-    # ---- input totals after unit conversion (initial solutions only)
-    if sol is not None:
-        exp, mw = expected_molalities(inf, sol)
-        byel = {}
-        adjusted = set()
-        for c, m in zip(sol["comps"], exp):
-            b = db.master[c["el"]].base
-            byel[b] = byel.get(b, 0.0) + m
-            if c.get("adj"):
-                adjusted.add(b)
-        for b, m in byel.items():
-            if b in adjusted or b in ("H", "O"):
+    asums = []
+    for table in (inf.alk, inf.alk_alt) if inf.alk_alt else (inf.alk,):
+        asum = aabs = 0.0
+        for s in meta["species"]:
+            if mol[s] == 0:
                 continue
-            if not close(v["TOT:" + b], m, TOL_REL, abs_=1e-11 * max(v["MU"], 1e-7)):
-                raise Violation("input_total", "%s: %s entered as %r mol/kgw (after unit conversion), TOT = %r" % (where, b, m, v["TOT:" + b]))
-            stats["bal"] += 1
-        want = sol.get("water", 1.0)
-        if not close(kgw, want, 1e-9):
-            raise Violation("input_total", "%s: -water %r, TOT(\"water\") = %r" % (where, want, kgw))
-    # ---- phases: SI = IAP - log K(T), SR = 10^SI, LK_PHASE
+            a = table.get(s)
+            if a is None:
+                asums = None
+                break
+            asum += a * mol[s]
+            aabs += abs(a * mol[s])
+        if asums is None:
+            break
+        asums.append((asum, aabs))
+    if asums:
+        for lab, x in [("ALK", v["ALK"])] + _reported(col, row, ["Alk"]):
+            if not any(close(asum, x, 0.0, abs_=TOL_REL * aabs + 1e-15) for asum, aabs in asums):
+                raise Violation("alkalinity", "%s: sum(alk_s*MOL) = %r, %s = %r (sum|alk m| = %r)"
+                                % (where, [a for a, _ in asums], lab, x, asums[0][1]))
+        if len(asums) > 1 and not close(asums[0][0], asums[1][0], 0.0, abs_=TOL_REL * asums[0][1] + 1e-15):
+            stats["two_readings"] = stats.get("two_readings", 0) + 1
+        stats["bal"] += 1
+    else:
+        stats["alk_unknown"] = stats.get("alk_unknown", 0) + 1
+    # ---- phases: SI = log IAP - log K(T), SR = 10^SI, LK_PHASE = Python log K(T)
     for p in meta["phases"]:
         ph = inf.usable_phases[p]
         si, sr, lk_en = v["SI:" + p], v["SR:" + p], v["LK_PHASE:" + p]
         lk_py = ph.logk(TK, db)
-        if not close(lk_py, lk_en, 1e-13, abs_=TOL_MA):
+        if "lk_phase" not in _OFF and not close(lk_py, lk_en, 1e-13, abs_=TOL_MA):
             raise Violation("lk_phase", "%s: LK_PHASE(%s) = %r, database text gives %r at %r K (line %s)" % (where, p, lk_en, lk_py, TK, ph.line))
         terms = ph.reaction
         if is_absent(si) or any(n not in la or (n not in present and n not in (inf.eminus, inf.water)) for _, n in terms):
@@ -778,19 +870,9 @@ def check_row(inf, case, sol, v, row, col, meta, stats, where):
         if abs(si) < 300 and not close(sr, 10.0 ** si, TOL_REL):
             raise Violation("saturation_ratio", "%s: SR(%s) = %r, 10^SI = %r" % (where, p, sr, 10.0 ** si))
         stats["phases"] += 1
-        j = col.get("si_" + p)
-        if j is not None and row[j] is not None and not close(row[j], si, 0.0, abs_=1e-12):
-            raise Violation("builtin_vs_basic", "%s: -saturation_indices %s = %r, SI = %r" % (where, p, row[j], si))
-    # ---- targets of the initial-solution adjustments
-    if sol is not None:
-        for c in sol["comps"]:
-            if c.get("adj") and c["adj"] != "charge":
-                p, target = c["adj"].split()
-                if not close(v["SI:" + p], float(target), 0.0, abs_=1e-7):
-                    raise Violation("phase_adjusted", "%s: %s adjusted to SI(%s) = %s but SI = %r" % (where, c["el"], p, target, v["SI:" + p]))
-        if sol.get("pH_opt") == "charge" or any(c.get("adj") == "charge" for c in sol["comps"]):
-            if abs(v["CB"]) > TOL_REL * zabs * kgw + 1e-12:
-                raise Violation("charge_adjusted", "%s: charge-adjusted solution has CHARGE_BALANCE = %r (sum|z m| = %r)" % (where, v["CB"], zabs * kgw))
+        for lab, x in _reported(col, row, ["si_" + p]):
+            if not close(x, si, 0.0, abs_=1e-9):
+                raise Violation("builtin_vs_basic", "%s: -saturation_indices %s = %r, SI = %r" % (where, p, x, si))
 
 
 # ----------------------------------------------------------------------------------------------- thorough: species sweep
